@@ -55,8 +55,8 @@ func logNumEqGuard() CondM {
 			return false, false
 		}
 		px, py := pathOf(bo.X), pathOf(bo.Y)
-		if (pathHasSuffix(px, "r.logNum") && isCallNamed(bo.Y, "Uint32", "binary")) ||
-			(pathHasSuffix(py, "r.logNum") && isCallNamed(bo.X, "Uint32", "binary")) {
+		if (pathHasSuffix(px, "recv.logNum") && isCallNamed(bo.Y, "Uint32", "binary")) ||
+			(pathHasSuffix(py, "recv.logNum") && isCallNamed(bo.X, "Uint32", "binary")) {
 			return true, bo.Op == token.NEQ
 		}
 		return false, false
@@ -131,7 +131,7 @@ func runC18Core(c *Ctx) {
 	}
 	// C18.G2: a clean end-of-log is reported only at a record boundary (while looking for the
 	// FIRST chunk of a record); in the middle of a record the end of data is an invalid chunk.
-	fl2 := NewFlow(c.P).Edge("at-record-boundary", BoolGuard("wantFirst", true))
+	fl2 := NewFlow(c.P).Edge("at-record-boundary", BoolGuard(ParamName(fn, 1), true))
 	res2 := fl2.Analyze(fn, emptyState())
 	n = c.Require("C18.G2", res2, ReturnOf("io.EOF", -1, sentinelPred("EOF")), "io.EOF is returned only while expecting the first chunk of a record", []string{"at-record-boundary"})
 	if n == 0 {
